@@ -12,17 +12,24 @@ theorem all_null_replicate : ∀ (l : List Item), l.all isNullItem = true → l 
     simp only [List.all_cons, Bool.and_eq_true] at h
     rw [List.length_cons, List.replicate_succ, ← ih h.2, ← isNullItem_elim h.1]
 
-theorem decArr_cons_length (d : Schema → Item → Option Value) : ∀ (fs : List (Nat × Schema)) pos xs vs,
-    decArr d pos fs xs = some vs → vs.length = fs.length := by
-  intro fs
-  induction fs with
-  | nil => intro pos xs vs h; simp [decArr] at h; subst h; rfl
-  | cons q fs ih =>
-    intro pos xs vs h
-    obtain ⟨idx, s⟩ := q
-    simp only [decArr] at h
+theorem decArr_nil_inv {d : Schema → Item → Option Value} {pos : Nat} {xs : List Item} {vs : List Value}
+    (h : decArr d pos [] xs = some vs) : vs = [] := by
+  simp only [decArr] at h
+  split at h
+  · simp only [Option.some.injEq] at h; exact h.symm
+  · simp at h
+
+theorem decArr_cons_inv {d : Schema → Item → Option Value} {pos idx : Nat} {s : Schema} {fs : List (Nat × Schema)}
+    {xs : List Item} {vs : List Value} (h : decArr d pos ((idx, s) :: fs) xs = some vs) :
+    utf8OkList (xs.take (idx - pos)) = true ∧
+    ((∃ it rest v vs', xs.drop (idx - pos) = it :: rest ∧ d s it = some v ∧ decArr d (idx + 1) fs rest = some vs' ∧ vs = v :: vs') ∨
+     (xs.drop (idx - pos) = [] ∧ s.isOpt = true ∧ ∃ vs', decArr d (idx + 1) fs [] = some vs' ∧ vs = Value.none :: vs')) := by
+  simp only [decArr] at h
+  split at h
+  · rename_i hu
+    refine ⟨hu, ?_⟩
     split at h
-    · rename_i it rest _
+    · rename_i it rest hdrop
       cases h1 : d s it with
       | none => simp [h1] at h
       | some v =>
@@ -30,13 +37,28 @@ theorem decArr_cons_length (d : Schema → Item → Option Value) : ∀ (fs : Li
         | none => simp [h1, h2] at h
         | some ws =>
           simp only [h1, h2, Option.some.injEq] at h
-          subst h
-          simp [ih (idx + 1) rest ws h2]
-    · split at h
-      · simp only [Option.map_eq_some_iff] at h
+          exact Or.inl ⟨it, rest, v, ws, hdrop, h1, h2, h.symm⟩
+    · rename_i hdrop
+      split at h
+      · rename_i ho
+        simp only [Option.map_eq_some_iff] at h
         obtain ⟨ws, hws, rfl⟩ := h
-        simp [ih (idx + 1) [] ws hws]
+        exact Or.inr ⟨hdrop, ho, ws, hws, rfl⟩
       · simp at h
+  · simp at h
+
+theorem decArr_cons_length (d : Schema → Item → Option Value) : ∀ (fs : List (Nat × Schema)) pos xs vs,
+    decArr d pos fs xs = some vs → vs.length = fs.length := by
+  intro fs
+  induction fs with
+  | nil => intro pos xs vs h; rw [decArr_nil_inv h]; rfl
+  | cons q fs ih =>
+    intro pos xs vs h
+    obtain ⟨idx, s⟩ := q
+    obtain ⟨_, hcase⟩ := decArr_cons_inv h
+    rcases hcase with ⟨it, rest, v, ws, _, _, h2, rfl⟩ | ⟨_, _, ws, h2, rfl⟩
+    · simp [ih (idx + 1) rest ws h2]
+    · simp [ih (idx + 1) [] ws h2]
 
 theorem arrFields_iso {e : Schema → Value → Option Item} {d : Schema → Item → Option Value} {c : Schema → Item → Bool}
     (trunc : Bool) :
@@ -49,8 +71,7 @@ theorem arrFields_iso {e : Schema → Value → Option Item} {d : Schema → Ite
     intro _ pos xs vs hcn hd
     simp only [canonArrFields, List.isEmpty_iff] at hcn
     subst hcn
-    simp [decArr] at hd
-    subst hd
+    rw [decArr_nil_inv hd]
     rfl
   | cons q fs ih =>
     intro hc pos xs vs hcn hd
@@ -66,32 +87,25 @@ theorem arrFields_iso {e : Schema → Value → Option Item} {d : Schema → Ite
         simp only [encArr, hnil, if_true]
       · simp only [hnil, Bool.false_eq_true, if_false, Bool.and_eq_true, decide_eq_true_eq] at hcn
         obtain ⟨⟨⟨hpos, htl⟩, hnull⟩, hrest⟩ := hcn
-        cases hdrop : xs.drop (idx - pos) with
-        | nil => simp [hdrop] at hrest
-        | cons it rest =>
+        obtain ⟨_, hcase⟩ := decArr_cons_inv hd
+        rcases hcase with ⟨it, rest, w, ws, hdrop, h1, h2, hvs⟩ | ⟨hdrop, _, _, _, _⟩
+        · simp only [List.cons.injEq] at hvs
+          obtain ⟨rfl, rfl⟩ := hvs
           simp only [hdrop, Bool.and_eq_true] at hrest
-          simp only [decArr, hdrop] at hd
-          cases h1 : d s it with
-          | none => simp [h1] at hd
-          | some w =>
-            cases h2 : decArr d (idx + 1) fs rest with
-            | none => simp [h1, h2] at hd
-            | some ws =>
-              simp only [h1, h2, Option.some.injEq, List.cons.injEq] at hd
-              obtain ⟨rfl, rfl⟩ := hd
-              have he1 := hc (idx, s) (by simp) it hrest.1 w h1
-              have he2 := ih (fun p hp => hc p (by simp [hp])) (idx + 1) rest ws hrest.2 h2
-              have hlt : ¬ idx < pos := by omega
-              have hxs : xs = List.replicate (idx - pos) mkNull ++ it :: rest := by
-                have := all_null_replicate _ hnull
-                rw [htl] at this
-                rw [← this, ← hdrop, List.take_append_drop]
-              have hnil' : (trunc && allNil ((idx, s) :: fs) (w :: ws)) = false := by
-                cases hq : (trunc && allNil ((idx, s) :: fs) (w :: ws)) with
-                | false => rfl
-                | true => exact absurd hq hnil
-              simp only [encArr, hnil', Bool.false_eq_true, if_false, hlt, he1, he2]
-              rw [hxs]
+          have he1 := hc (idx, s) (by simp) it hrest.1 v h1
+          have he2 := ih (fun p hp => hc p (by simp [hp])) (idx + 1) rest vs' hrest.2 h2
+          have hlt : ¬ idx < pos := by omega
+          have hxs : xs = List.replicate (idx - pos) mkNull ++ it :: rest := by
+            have := all_null_replicate _ hnull
+            rw [htl] at this
+            rw [← this, ← hdrop, List.take_append_drop]
+          have hnil' : (trunc && allNil ((idx, s) :: fs) (v :: vs')) = false := by
+            cases hq : (trunc && allNil ((idx, s) :: fs) (v :: vs')) with
+            | false => rfl
+            | true => exact absurd hq hnil
+          simp only [encArr, hnil', Bool.false_eq_true, if_false, hlt, he1, he2]
+          rw [hxs]
+        · simp [hdrop] at hrest
 
 theorem isKey_elim {idx : Nat} {k : Item} (h : isKey idx k = true) : k = mkUInt idx ∧ idx < 2 ^ 64 := by
   cases k <;> simp [isKey] at h
